@@ -137,7 +137,9 @@ static std::string slot_name(const EP& e, int j) {
 static bool is_int_kind(char k) { return k == 'i' || k == 'b'; }
 // the 6 valid perturbations of an argument
 static std::vector<double> perturb(char kind, double v) {
-  static const double D[6] = {1.25, -2.5, 3.75, -5.5, 7.25, -11};
+  // deliberately not multiples of 1/4: with dyadic steps an output such as the arc seconds of DMS::Encode(-148.25 + k/4)
+  // stays 0 and was measured as independent of the angle (false alarm corrected, DESIGN 9.4)
+  static const double D[6] = {1.2503, -2.517, 3.7591, -5.5013, 7.2519, -11.003};
   double sc;
   switch (kind) {
   case 'a': case 'o': case 'z': case 'g': sc = 1; break;
